@@ -107,6 +107,8 @@ def render(inst, noise=None, with_second=True):
     elif noise.get('final_newline', True):
         text += '\n'
     text += '\n' * int(noise.get('blank_tail') or 0)
+    if noise.get('eol') and noise['eol'] != '\n':
+        text = text.replace('\n', noise['eol'])
     return text
 
 
